@@ -35,10 +35,8 @@ def run(C, R):
             # R1 who may write the slot
             nw = 0
             for fn, s in scan_field_writes(F, 'value', mod):
-                if fn.get('impl_adt') != st:
-                    continue
                 nw += 1
-                if method_role(F, fn)[0] == 'send':
+                if fn.get('impl_adt') == st and method_role(F, fn)[0] == 'send':
                     R.ok('C12.R1', '%s|slot-write' % fn['path'])
                 else:
                     R.fail('C12.R1', [fn['path'], 'slot-write-outside-send'],
